@@ -500,6 +500,13 @@ def check_sorter(ctx, utils):
                 good = True
         if key and isinstance(key[0], ast.Name) and key[0].id == 'discipline_sort_key':
             good = True
+        if key and isinstance(key[0], ast.Name):
+            # a local key function: good when everything it returns is the discipline key
+            local = [d for d in ast.walk(fn) if isinstance(d, ast.FunctionDef) and d is not fn and d.name == key[0].id]
+            if local:
+                rets_ = [r for r in ast.walk(local[0]) if isinstance(r, ast.Return)]
+                if rets_ and all(isinstance(r.value, ast.Call) and call_name(r.value) == 'discipline_sort_key' for r in rets_):
+                    good = True
         if good:
             ctx.ok('R6', 'sort_by_discipline sorts on the key only: %s' % unparse(s))
         else:
